@@ -317,6 +317,13 @@ int _vnacal_new_add_common(vnacal_new_add_arguments_t vnaa)
     /* address where next equation should be linked */
     vnacal_new_equation_t **vnepp_anchor = &ncep_head;
 
+    /* state of the parameter table, restored if the standard is rejected */
+    const int mark_hash_count = vnp->vn_parameter_hash.vnph_count;
+    const int mark_unknown_parameters = vnp->vn_unknown_parameters;
+    const int mark_correlated_parameters = vnp->vn_correlated_parameters;
+    vnacal_new_parameter_t **const mark_unknown_parameter_anchor =
+	vnp->vn_unknown_parameter_anchor;
+
     /* return code */
     int rc = -1;
 
@@ -1001,6 +1008,11 @@ out:
 	free((void *)vnep);
     }
     _vnacal_new_free_measurement(vnmp);
+    if (rc != 0) {
+	_vnacal_new_rollback_parameters(vnp, mark_hash_count,
+		mark_unknown_parameters, mark_correlated_parameters,
+		mark_unknown_parameter_anchor);
+    }
 
     return rc;
 }
